@@ -202,6 +202,12 @@ fn graph_random() {
     let world = World::new(&lib).unwrap();
     let mut rng = StdRng::seed_from_u64(seed);
     let mut out = std::io::BufWriter::new(std::fs::File::create(&out_path).unwrap());
+    let hist_path = arg("--hist-out", "");
+    let mut hist_out = if hist_path.is_empty() {
+        None
+    } else {
+        Some(std::io::BufWriter::new(std::fs::File::create(&hist_path).unwrap()))
+    };
     let stdout = std::io::stdout();
     let mut so = stdout.lock();
     let (mut events, mut encodes, mut ok_ops) = (0usize, 0usize, 0usize);
@@ -210,7 +216,14 @@ fn graph_random() {
         events += 1;
         let mut m = Machine::new(&world);
         let mut history: Vec<Value> = Vec::new();
+        // the accepted operations of the run: a history that rebuilds the same graph (C16 re-execution)
+        let mut accepted: Vec<Value> = Vec::new();
         for step in 0..len {
+            if step + 1 == len || step % 25 == 24 {
+                if let Some(h) = hist_out.as_mut() {
+                    writeln!(h, "{}", json!({"hist": accepted})).unwrap();
+                }
+            }
             let live: Vec<u64> = m.nodes.keys().copied().collect();
             let pick = |rng: &mut StdRng, v: &Vec<String>| -> String {
                 v.choose(rng).cloned().unwrap_or_else(|| "-".into())
@@ -276,6 +289,9 @@ fn graph_random() {
             };
             let a = m.apply(&op);
             history.push(op.to_json());
+            if a.tag == "ok" {
+                accepted.push(op.to_json());
+            }
             if let Some(p) = &a.problem {
                 writeln!(so, "{}", json!({"class": "result", "what": p, "op": op.to_json(), "run": run, "step": step, "seed": seed, "hist": history})).unwrap();
             }
